@@ -1,8 +1,8 @@
 package rules
 
 import (
-	"go/constant"
 	"fmt"
+	"go/constant"
 	"go/token"
 	"strings"
 
@@ -676,7 +676,9 @@ func c16cacheAs(c *Ctx, rule string, timersOnly bool) {
 				return false, "fetch is called outside the single flight"
 			}
 			dg := p.First(calleeIs(colPkg + ".(*Cache).doGet"))
-			do := p.All(func(e *px.Event) bool { return e.Kind == px.EvCall && e.Call.Method != nil && e.Call.Method.Name() == "Do" })
+			do := p.All(func(e *px.Event) bool {
+				return e.Kind == px.EvCall && e.Call.Method != nil && e.Call.Method.Name() == "Do"
+			})
 			if dg == nil {
 				return false, "cache not consulted"
 			}
@@ -702,7 +704,9 @@ func c16cacheAs(c *Ctx, rule string, timersOnly bool) {
 		})
 		if cl != nil {
 			cps := c.paths(rule, cl, px.Config{MayPanic: userPanics})
-			fetch := px.DynWhere(func(s *px.Sym) bool { return s.Kind == px.KFreeVar || (s.Kind == px.KLoad && s.X != nil && s.X.Kind == px.KFreeVar) })
+			fetch := px.DynWhere(func(s *px.Sym) bool {
+				return s.Kind == px.KFreeVar || (s.Kind == px.KLoad && s.X != nil && s.X.Kind == px.KFreeVar)
+			})
 			set := calleeIs(colPkg + ".(*Cache).Set")
 			c.forall(rule, colPkg+".(*Cache).Take$flight", "inside the flight: a second hit returns without fetching; fetch error ⇒ returned, nothing cached; success ⇒ Set(key, fetched value) once and the value returned", cl, cps, func(p *px.Path) (bool, string) {
 				dg := p.First(calleeIs(colPkg + ".(*Cache).doGet"))
